@@ -153,7 +153,7 @@ pub fn record_schema(a: &Args) {
             let mut bytes = match r.below(20) {
                 0 => elementless(&mut r),
                 _ => {
-                    let budget = 1 + r.below(if scaled { 3 * max_elems } else { max_elems });
+                    let budget = if scaled { (3 * max_elems).max(g.max_kids + 10) } else { 1 + r.below(max_elems) };
                     document(&mut r, &g, &root, budget)
                 }
             };
